@@ -122,6 +122,30 @@ def evenOdd (P : Array (V2 Rat)) (edges : List (Nat × Nat)) (p : V2 Rat) : Bool
     | _, _ => false
   crossings.length % 2 == 1
 
+
+/-- exact flood fill on the padded grid `[0, ni+1] × [0, nj+1]` (coordinates shifted by one): the set of non-surface
+cells 4-connected to the padding ring — the specification of `FillMode::FloodFill { detect_cavities: false }` -/
+def outsideCells (ni nj : Nat) (surf : Std.HashSet (Nat × Nat)) : Std.HashSet (Nat × Nat) := Id.run do
+  let mut seen : Std.HashSet (Nat × Nat) := {}
+  let mut work : List (Nat × Nat) := [(0, 0)]
+  seen := seen.insert (0, 0)
+  let mut fuel := (ni + 3) * (nj + 3) * 5 + 10
+  while fuel > 0 && !work.isEmpty do
+    fuel := fuel - 1
+    match work with
+    | [] => pure ()
+    | (i, j) :: rest =>
+      work := rest
+      let nbrs := [(i + 1, j), (i, j + 1)] ++ (if i > 0 then [(i - 1, j)] else []) ++ (if j > 0 then [(i, j - 1)] else [])
+      for (a, b) in nbrs do
+        if a ≤ ni + 1 && b ≤ nj + 1 && !seen.contains (a, b) then
+          -- padded coordinates: real cell (a-1, b-1); the ring is never a surface cell
+          let isSurf := a ≥ 1 && b ≥ 1 && surf.contains (a - 1, b - 1)
+          if !isSurf then
+            seen := seen.insert (a, b)
+            work := (a, b) :: work
+  return seen
+
 def voxelize2Oracle (fm : Nat) (pts : List (V2 Float)) (edges : List (Nat × Nat))
     (origin : V2 Float) (scale : Float) (voxels : List (Nat × Nat × Bool)) : String :=
   let O := q2 origin; let S := q scale
@@ -146,18 +170,30 @@ def voxelize2Oracle (fm : Nat) (pts : List (V2 Float)) (edges : List (Nat × Nat
   | [] =>
     if fm = 0 then "pass" else
     let centre (c : Nat × Nat) : V2 Rat := ⟨O.x + (c.1 : Rat) * S, O.y + (c.2 : Rat) * S⟩
-    -- flood fill: interior (non-surface) voxels have their centre inside the polygon …
+    let ni := voxels.foldl (fun m v => max m (v.1 + 1)) 0
+    let nj := voxels.foldl (fun m v => max m (v.2.1 + 1)) 0
+    if fm = 1 then
+      -- plain flood fill: interior voxels are EXACTLY the non-surface cells that are not 4-connected to the outside
+      let out := outsideCells ni nj surf
+      let wrongIn := voxels.filter fun v => !v.2.2 && out.contains (v.1 + 1, v.2.1 + 1)
+      match wrongIn with
+      | v :: _ => s!"fail interior-voxel-connected-to-the-outside ({v.1},{v.2.1})"
+      | [] =>
+        let missing := (List.range ni).flatMap fun i => (List.range nj).filterMap fun j =>
+          if !all.contains (i, j) && !out.contains (i + 1, j + 1) then some (i, j) else none
+        match missing with
+        | (i, j) :: _ => s!"fail enclosed-cell-not-filled ({i},{j})"
+        | [] => "pass"
+    else
+    -- detect_cavities: interior (non-surface) voxels have their centre inside the polygon …
     match voxels.filter (fun v => !v.2.2 && !evenOdd P edges (centre (v.1, v.2.1))) with
-    | v :: _ => s!"fail interior-voxel-centre-outside-polygon{if fm = 2 then "[detect-cavities]" else ""} ({v.1},{v.2.1})"
+    | v :: _ => s!"fail interior-voxel-centre-outside-polygon[detect-cavities] ({v.1},{v.2.1})"
     | [] =>
       -- … and every grid cell whose centre is inside the polygon is present (surface or interior)
-      let ni := voxels.foldl (fun m v => max m (v.1 + 1)) 0
-      let nj := voxels.foldl (fun m v => max m (v.2.1 + 1)) 0
       let missing := (List.range ni).flatMap fun i => (List.range nj).filterMap fun j =>
         if !all.contains (i, j) && evenOdd P edges (centre (i, j)) then some (i, j) else none
-      let tag := if fm = 2 then "[detect-cavities]" else ""
       match missing with
-      | (i, j) :: _ => s!"fail cell-with-centre-inside-polygon-missing{tag} ({i},{j})"
+      | (i, j) :: _ => s!"fail cell-with-centre-inside-polygon-missing[detect-cavities] ({i},{j})"
       | [] => "pass"
 
 def hullOracle (origin : V3 Float) (scale : Float) (parts : List (List Voxel))
